@@ -13,7 +13,7 @@ spec:      spec/Deb822Reader.tla       line-level model of the reader (SkipUsele
                                        object) and SharedIterObject (a generator re-fills the object
                                        it yielded before)
 model checking:
-           lts (closed, VIEW without history, both values of whitespace-separates-paragraphs):
+           lts (closed, VIEW without history; thorough: both values of whitespace-separates-paragraphs):
                Totality and exclusiveness of the branch guards, BranchAgrees, EofRule (EOFError <=>
                empty payload => empty paragraph), PayloadClean, StoppedAbsorbing, DoneGrows.
            bnd: every document of <= 3 paragraphs x <= 3 fields with <= 3 fields in all (thorough: 4)
@@ -51,6 +51,18 @@ binding:   (a) every CASE line of TLC (document P, Dump(P), Parse(Dump(P))) is c
                alone, two generators (this document / the previous case's document) are advanced
                alternately, and the objects of the previous case (and of the previous recorded
                document) are kept alive and re-verified after the current one has been handled.
+           (d) size stress (notes/SIZE_STRESS.md) in both legs.  The specification is class-abstract, so
+               TLC's expected parse does not depend on any length; the CONCRETIZATION gets a size plan
+               (class Sizes) that hands out boundary lengths round-robin, whatever the seed: names of
+               9..300 characters (31/32/33, 63/64/65, 127/128/129, 255/256/257, 300), first lines and
+               continuation lines of 1..8193 characters and three lines of 65535/65536/65537 per run
+               (every other one pure ASCII, i.e. the same number of bytes).  Every 6th CASE (thorough:
+               every 3rd second concretization) and every 5th recorded document is size-stressed.
+               Counts: the configuration "big" lets TLC compute Parse(Dump(P)) for uniform documents of
+               10 / 33 / 100 / 257 / 1000 paragraphs, 10 / 33 / 100 fields, 17 / 101 / 120 continuation
+               lines (BigInvariant), replayed like every other CASE; the recorder adds documents of
+               1000x1, 100x2, 1x100 fields, 1x1x150 continuation lines ... (thorough: 1x257 fields,
+               1000x2), observed at about 24 prefix lengths each (np = -2 marks an unobserved prefix).
 verdict observables: list of (name, value) per paragraph == TLC's parse (first line trimmed,
            continuation lines verbatim) in every form; "\\n".join(p.dump()) of the re-parsed paragraphs
            == dump of the expected paragraphs; no exception; a call never returns an object it returned
@@ -80,7 +92,7 @@ from lts import LTS, skey
 MANIFEST = dict(
     technique="TLA+ specs Deb822Reader + Deb822ReaderCalls (line-class automaton of _skip_useless_lines + split_gpg_and_payload + _internal_parser + iter_paragraphs, inverse operator Dump, clearsign Armor) model-checked by TLC (closed automaton; all bounded documents); every TLC case replayed as real dump()+re-parse in six input forms x comments x armor; prefix-closed executions of the real reader validated by TLC (TraceDeb822Reader)",
     text="The reader is specified as one automaton over eleven line classes with one named branch per branch of the code's loops. TLC checks on the closed automaton that the branch guards are total and exclusive and that EOFError coincides with an empty paragraph, and on every document of up to 3 paragraphs x 3 fields (at most 3 fields in all in the quick tier, 4-5 in the thorough tier, plus all 3x3 documents over two value shapes) x values with empty/non-empty first line and 0-2 continuation lines that Parse(Dump(P)) = P, also with a comment line at any position or before every line, with leading/trailing/multiple separator lines, and (single paragraphs) inside clearsign armor of several shapes. Each enumerated document carries TLC's expected parse; it is concretized (odd but Policy-valid names, values starting with ':' '#' '-', padded first lines, colons / PGP look-alikes / trailing blanks in continuation lines, UTF-8 whose bytes contain 0x85/0xa0), built as Deb822 objects, dumped and read back through iter_paragraphs / Deb822 / Dsc / Changes in six input forms. In the other direction random documents of up to 8 paragraphs are parsed prefix by prefix by the real code and TLC must explain every intermediate result with the automaton.",
-    note="Small-scope for the exhaustive part; payload text is sampled. Whitespace-only lines, junk lines, stray PGP lines and the non-default strictness flag are modelled and replayed but only diagnostic. Observation (unspecified for C02, recorded as drift): Dsc/Changes given a list or file whose leading comment is followed by a blank line lose the paragraph. Trusted: TLC, the concretizer (line class known by construction), the projection items()/value.split('\\n')/dump(). Independence of calls (module Deb822ReaderCalls: memo / shared-object negative controls, LTS replayed; repeated parses with caller-side mutation, interleaved generators, kept-alive objects). Seven spec-level negative controls and corrupted control traces must fail.",
+    note="Small-scope for the exhaustive part; payload text is sampled. Whitespace-only lines, junk lines, stray PGP lines and the non-default strictness flag are modelled and replayed but only diagnostic. Observation (unspecified for C02, recorded as drift): Dsc/Changes given a list or file whose leading comment is followed by a blank line lose the paragraph. Trusted: TLC, the concretizer (line class known by construction), the projection items()/value.split('\\n')/dump(). Size stress in both legs: names up to 300 characters, lines around 4 KiB / 8 KiB / 64 KiB, documents of 1000 paragraphs, paragraphs of 100 fields, values of 100+ continuation lines (expected results from TLC's BigInvariant configuration / trace validation with sparse observation). Independence of calls (module Deb822ReaderCalls: memo / shared-object negative controls, LTS replayed; repeated parses with caller-side mutation, interleaved generators, kept-alive objects). Seven spec-level negative controls and corrupted control traces must fail.",
     design="5 (C02)")
 
 FORMS = ("str", "bytes", "lines_nl", "lines", "sio", "bio")
